@@ -604,7 +604,11 @@ class Ops:
         if name == "log" and z3.is_app(a) and a.decl().name() == "exp":
             return a.arg(0)
         if self._const_ite(a) or (_is_ite(a) and _ite_count(a) <= 6):
-            return z3.If(a.arg(0), zreal(self.unary(name, a.arg(1))), zreal(self.unary(name, a.arg(2))))
+            ra, rb = self.unary(name, a.arg(1)), self.unary(name, a.arg(2))
+            if any(isinstance(r, SpecialIte) or (not is_sym(lower(r)) and is_special(lower(r))) for r in (ra, rb)):
+                # e.g. log(where(out_of_support, 0, p)): keep the -inf leaf exact instead of a distinguished finite constant
+                return _mk_special(self, a.arg(0), ra, rb)
+            return z3.If(a.arg(0), zreal(ra), zreal(rb))
         return uf(name, _R, _R)(a)
 
 
